@@ -200,13 +200,13 @@ theorem C10_fwd_once (cfg : Cfg) (st : St) (now : Nat) (sp : SendParams) :
     · simp only [fwdFail, finish_eff, finish_fwdQ, fwdEdit_fwdQ, List.nil_append]
       exact ⟨by simp [finishEff_tx], finishEff_report _, trivial⟩
     · split
-      · simp only [finish_eff, finish_fwdQ, sendBundle_fwdQ, fwdEdit_fwdQ, List.filter_cons]
+      · simp only [finish_eff, finish_fwdQ, sendAsIs_fwdQ, fwdEdit_fwdQ, List.filter_cons]
         refine ⟨by simp [finishEff_tx], ?_, trivial⟩
         simpa using finishEff_report _
-      · simp only [finish_eff, finish_fwdQ, sendBundle_fwdQ, fwdEdit_fwdQ, List.filter_cons]
+      · simp only [finish_eff, finish_fwdQ, sendAsIs_fwdQ, fwdEdit_fwdQ, List.filter_cons]
         refine ⟨by simp [finishEff_tx], ?_, trivial⟩
         simpa using finishEff_report _
-      · simp only [fwdFail, finish_eff, finish_fwdQ, sendBundle_fwdQ, fwdEdit_fwdQ, List.nil_append]
+      · simp only [fwdFail, finish_eff, finish_fwdQ, sendAsIs_fwdQ, fwdEdit_fwdQ, List.nil_append]
         exact ⟨by simp [finishEff_tx], finishEff_report _, trivial⟩
 
 -- a history with a repeat, a look-alike fragment and an own-source bundle
